@@ -87,7 +87,7 @@ def load(path):
     return g
 
 
-def plan(g, seed, cap=250, budget=None, near=5):
+def plan(g, seed, cap=250, budget=None, near=8):
     """-> (tours, stats); a tour is [(label, node)], starting at the successor of the initial state"""
     rng = random.Random(seed)
     order = sorted(g.out)                      # fingerprints are stable for a fixed -fp: the plan depends on the seed only
